@@ -107,3 +107,13 @@ FAIL.update({
     'f_ns_divzero': (False, ["ns cfg {\n  STEP = 0\n  COUNT = 100 / .STEP\n}\n;0\n"]),
     'f_stl_ns_divzero': (True, ["stl.startup\nns cfg {\n  STEP = 0\n  COUNT = 100 / .STEP\n}\nstl.loop\n"]),
 })
+
+
+def _big_labels_program(n=24000):
+    names = ', '.join(f'a_rather_long_local_label_name_number_{k}_padding_padding_padding' for k in range(8))
+    body = '\n'.join(f'  a_rather_long_local_label_name_number_{k}_padding_padding_padding:' for k in range(8))
+    return f"def m @ {names} {{\n{body}\n  ;$ + 2*w\n}}\ndef halt @ h {{\n h:\n ;h\n}}\n  rep({n}, i) m\n  halt\n"
+
+
+# a program whose debug-label table is > 16 MiB of JSON (192 001 labels): size-dependent code paths of the writers
+BIG = {'n_big_labels': (False, [_big_labels_program()])}
